@@ -159,7 +159,9 @@ def _check_dir(ctx, case):
     reg, base = build_dir(ctx, case)
     exts = case.get("extensions") or ["gb", "gbk"]
     if all(e in ("gb", "gbk", "genbank", "GB") for e in exts):
-        expect = [f["stem"] for f in case["files"] if f["ext"] in exts]
+        # the key of a file is its name without the last suffix, when that suffix is a supported extension
+        names = [f["stem"] + "." + f["ext"] for f in case["files"]]
+        expect = [nm.rsplit(".", 1)[0] for nm in names if nm.rsplit(".", 1)[1] in exts]
     else:
         # an extension spelt with its dot: which files that selects is not the property's business, but iteration,
         # len(), [] and `in` must still tell one story (every stem is tried as a possibly-absent key below)
@@ -335,7 +337,7 @@ def gen_dir(rng, nsrc):
         if stem in stems:
             continue
         stems.add(stem)
-        files.append({"stem": stem, "ext": rng.choice(["gb", "gb", "gbk", "gbk", "genbank", "txt", "fasta", "GB"]),
+        files.append({"stem": stem, "ext": rng.choice(["gb", "gb", "gbk", "gbk", "genbank", "txt", "fasta", "GB", "seq.gb", "gb.txt"]),
                       "src": rng.randrange(nsrc),
                       "labels": rng.choice([None, None, "tag-second", "others-multi", "both"])})
     dirs = rng.sample(["sub", "old.gb", "x", "backup.gbk"], rng.randint(0, 2))
@@ -344,7 +346,7 @@ def gen_dir(rng, nsrc):
         f = rng.choice(gbfiles)
         dirs.append(f["stem"] + "." + ("gbk" if f["ext"] == "gb" else "gb"))      # pX.gb/ next to pX.gbk
     exts = rng.choice([None, None, None, ["gb"], ["gbk", "gb"], ["genbank"], ["gb", "gbk", "genbank"], [".gb"],
-                       ["gb", ".gbk"], [".gb", ".gbk"]])
+                       ["gb", ".gbk"], [".gb", ".gbk"], ["seq.gb", "gb"], ["seq.gb"]])
     return {"files": files, "dirs": dirs, "extensions": exts,
             "backend": rng.choice(["memory", "memory", "disk"]),
             "junk": rng.sample(["README", "notes.txt", "seq.fa", ".hidden", ".gb", ".gbk"], rng.randint(0, 2))}
